@@ -461,6 +461,10 @@ class Ev:
     def coerce(self, v, t):
         """give an untyped constant / mathint the Go type t"""
         if isinstance(v, Val) and v.t == '$key':
+            if t == MATHINT:
+                return mathint(v.term)
+            if t is not None and self.types.kind(t) == 'int':
+                return scalar(t, v.term)   # the key of an integer-keyed map is the integer itself
             return v
         if isinstance(v, NilV):
             return V.zero_val(self.types, t)
@@ -1018,6 +1022,15 @@ class Ev:
             if rng is not None:
                 body = z3.Implies(z3.And(k >= rng[0], k <= rng[1]), body)
         return boolv(z3.ForAll([k], body))
+
+    def fn_visited(self, args):
+        """visited(k), in an invariant of a loop that ranges over a map: the iteration has already
+        produced key k"""
+        vs = self.env.get('$visited')
+        if vs is None:
+            raise SpecError('visited() outside the invariant of a range-over-map loop')
+        kv = self.coerce(self.ev(args[0]), vs.bindings[0])
+        return boolv(z3.Select(vs.term, self.key_of(kv)))
 
     def fn_same(self, args):
         """same(a, b): identical representation (for slices: same backing array, bounds)"""
